@@ -34,7 +34,7 @@ use std::time::Duration;
 const MODES: [(&str, &str); 3] = [("with-loader-ts-5.0", "d.graphql.ts"), ("with-loader-ts-4.0", "graphql.d.ts"), ("standalone-ts-4.0", "graphql.ts")];
 /// (schema output extension, emits runtime, JS extension the CLI must write in specifiers)
 const EXTS: [(&str, bool, &str); 7] = [(".d.ts", false, ".js"), (".ts", true, ".js"), (".d.mts", false, ".mjs"), (".mts", true, ".mjs"), (".d.cts", false, ".cjs"), (".cts", false, ".cjs"), (".tsx", false, ".js")];
-const LAYOUTS: [&str; 5] = ["generated/schema", "schema-types", "src/types/schema", "out/a/b/schema", "src/deep/schema"];
+const LAYOUTS: [&str; 6] = ["generated/schema", "schema-types", "src/types/schema", "out/a/b/schema", "src/deep/schema", "generated.out/api.v2.schema"];
 
 #[derive(Clone, Debug)]
 pub struct Case {
